@@ -257,15 +257,19 @@ class BzrBranch(Branch, _RelockDebugMixin):
             # Do not release the repository lock (taken by somebody else) from
             # the finally block below when this branch holds no lock.
             return cant_unlock_not_held(self)
-        if self.control_files._lock_count == 1 and self.conf_store is not None:
-            self.conf_store.save_changes()
         try:
-            self.control_files.unlock()
+            # Inside the try block: a failure to save the configuration must
+            # not leave the branch (and its repository) locked.
+            if self.control_files._lock_count == 1 and self.conf_store is not None:
+                self.conf_store.save_changes()
         finally:
-            if not self.control_files.is_locked():
-                self.repository.unlock()
-                # we just released the lock
-                self._clear_cached_state()
+            try:
+                self.control_files.unlock()
+            finally:
+                if not self.control_files.is_locked():
+                    self.repository.unlock()
+                    # we just released the lock
+                    self._clear_cached_state()
 
     def peek_lock_mode(self):
         """Get the current lock mode without changing locks.
